@@ -254,6 +254,9 @@ def run(tier, seed):
     # (state kept on the instance between calls shows here, as a self-contained history; the stateless
     # exploration below assumes independent executions)
     reps = [([B06[0], B06[1]], [B06[8], B06[2]]), ([B06[6]], [B06[0], B06[5]]), ([EXTRA, B06[3]], [B06[1]])]
+    # an MCS-imputed fragment that the standardizer cannot convert (enolate) before one that it converts (enol)
+    enolate, vinyl = "CC(=O)OCC=C[O-]>>CC(=O)O", "CC(=O)OC=C>>CC(=O)O"
+    reps += [([enolate], [vinyl]), ([vinyl], [enolate]), ([enolate, vinyl], [vinyl])]
     first = B06 if thorough else [B06[1], B06[2], B06[6], B06[13], B06[0], B06[10]]   # quick: one X per way of leaving state behind
     reps += [([a], [b]) for a in first for b in B06 if a != b]
     if thorough:
